@@ -102,8 +102,8 @@ def sampler_union_log(cfg):
         s = ckpt.make(cfg, model, None, resume=False, cls=Sampler)
         try:
             kw = dict(cfg.get('runkw') or dict(n_eff=40, discard_exploration=True))
-            kw.setdefault('n_like_max', 3000)          # bounded: the unions built on the way are what matters here
-            with common.cpu_limit(240):
+            kw.setdefault('n_like_max', 1500)          # bounded: the unions built on the way are what matters here
+            with common.cpu_limit(120):
                 s.run(**kw)
         except common.CpuTimeout:
             pass                                       # keep what was recorded so far
